@@ -680,7 +680,7 @@ theorem read_print (l : Lit) (h : wfLit l = true) : readLit (printLit l) = some 
     Literal level: a plain string default is compared where its literal form is a string (an `ID` / custom-scalar
     default that looks like an integer has an Int literal form but is reported quoted — the same value after coercion). -/
 def DefaultParsesStatement : Prop :=
-  ∀ (s : SchemaD) (ty : Ty) (dv : J) (l : Lit), litOf s 64 ty dv = some l → wfLit l = true →
+  ∀ (s : SchemaD) (ty : Ty) (dv : J) (l : Lit), litOfStrict s 64 ty dv = some l → wfLit l = true →
     (∀ x, dv = .str x → Prims.baseIsKind s ty .enum = false → l = .str x.toList) →
     ∃ text, formatDefaultValue s true dv ty = some text ∧ readLit text = some l
 
@@ -695,7 +695,7 @@ def witnessSchema : SchemaD :=
 theorem default_string_control_raw :
     formatDefaultValue witnessSchema true (.str (String.ofList [Char.ofNat 12])) (.named "String") = some ['"', Char.ofNat 12, '"']
     ∧ readLit ['"', Char.ofNat 12, '"'] = none
-    ∧ litOf witnessSchema 64 (.named "String") (.str (String.ofList [Char.ofNat 12])) = some (.str [Char.ofNat 12]) := ⟨rfl, rfl, rfl⟩
+    ∧ litOfStrict witnessSchema 64 (.named "String") (.str (String.ofList [Char.ofNat 12])) = some (.str [Char.ofNat 12]) := ⟨rfl, rfl, rfl⟩
 
 /-- the full statement is FALSE (also with the partial repair): witness above -/
 theorem default_parses_refuted : ¬ DefaultParsesStatement := by
@@ -708,36 +708,36 @@ theorem default_parses_refuted : ¬ DefaultParsesStatement := by
   rw [default_string_control_raw.2.1] at h2
   cases h2
 
-private theorem litOf_null (s : SchemaD) : ∀ (fuel : Nat) (ty : Ty) (l : Lit), litOf s fuel ty .null = some l → l = .null := by
+private theorem litOf_null (s : SchemaD) (ns : Bool) : ∀ (fuel : Nat) (ty : Ty) (l : Lit), litOfG s ns fuel ty .null = some l → l = .null := by
   intro fuel
   induction fuel with
-  | zero => intro ty l h; simp [litOf] at h
+  | zero => intro ty l h; simp [litOfG] at h
   | succ f ih =>
     intro ty l h
     cases ty with
     | nonNull t =>
-      rw [litOf] at h
-      cases hr : litOf s f t .null with
+      rw [litOfG] at h
+      cases hr : litOfG s ns f t .null with
       | none => simp [hr] at h
       | some l' =>
         have := ih t l' hr
         subst this
         simp [hr] at h
-    | named n => simp [litOf] at h; exact h.symm
-    | list t => simp [litOf] at h; exact h.symm
+    | named n => simp [litOfG] at h; exact h.symm
+    | list t => simp [litOfG] at h; exact h.symm
 
 /-- `default_parses_partial` — which defaults round-trip: ALL of them (null, booleans, integers, floats as text,
     enum values by NAME whatever the internal value, strings inside lists / objects with full escaping, lists and
     nested lists, input objects) except a plain (top-level, non-enum) string default containing a control character
     other than TAB, LF, CR, which is the hypothesis `hs` (and the refutation above). -/
 theorem default_parses_partial (s : SchemaD) (ty : Ty) (dv : J) (l : Lit)
-    (hl : litOf s 64 ty dv = some l) (hwf : wfLit l = true)
+    (hl : litOfStrict s 64 ty dv = some l) (hwf : wfLit l = true)
     (hs : ∀ x, dv = .str x → Prims.baseIsKind s ty .enum = false → l = .str x.toList ∧ x.toList.all topCharOk = true) :
     ∃ text, formatDefaultValue s true dv ty = some text ∧ readLit text = some l := by
   by_cases hnone : Prims.isNone dv = true
   · have : dv = .null := by cases dv <;> simp_all [Prims.isNone]
     subst this
-    have := litOf_null s 64 ty l hl
+    have := litOf_null s false 64 ty l hl
     subst this
     exact ⟨['n', 'u', 'l', 'l'], by simp [formatDefaultValue, Prims.isNone], rfl⟩
   by_cases hstr : (Prims.isStr dv && !(Prims.baseIsKind s ty Kind.enum)) = true
@@ -754,17 +754,34 @@ theorem default_parses_partial (s : SchemaD) (ty : Ty) (dv : J) (l : Lit)
   · refine ⟨printLit l, ?_, read_print l hwf⟩
     have hn : Prims.isNone dv = false := by simpa using hnone
     have hs' : (Prims.isStr dv && !(Prims.baseIsKind s ty Kind.enum)) = false := by simpa using hstr
-    simp only [formatDefaultValue, Bool.not_true, Bool.false_eq_true, ↓reduceIte, hn, hs', Prims.printAstOfValue, hl, Option.map_some]
+    simp only [formatDefaultValue, Bool.not_true, Bool.false_eq_true, ↓reduceIte, hn, hs', Prims.printAstOfValueStrict, hl, Option.map_some]
+
+/-- I11: in the literal form introspection reports, a string of a CUSTOM scalar is a string literal whatever it
+    spells (`"7"`, `"1.5"`, `"nan"`): the number/string distinction of the declared value survives at every depth
+    (the SDL printer's form `litOf` prints `"7"` as `7`: pinned for text-keeping scalars). -/
+theorem strict_string_stays_string (s : SchemaD) (n : String) (td : TypeD) (x : String)
+    (ht : s.findType n = some td) (hk : td.kind = .scalar) (hn : specifiedScalars.contains n = false) :
+    litOfStrict s 64 (.named n) (.str x) = some (.str x.toList) := by
+  have hid : (n == "ID") = false := by
+    cases h : (n == "ID") with
+    | false => rfl
+    | true => simp at h; subst h; simp [specifiedScalars] at hn
+  simp [litOfStrict, litOfG, ht, hk, hn, customNode, scalarNode, hid]
+
+/-- the same declared list `["7", 7]` of a custom scalar: reported form vs SDL-printer form -/
+example : let s : SchemaD := { types := [{ kind := .scalar, name := "Any" }] }
+    litOfStrict s 64 (.list (.named "Any")) (.arr [.str "7", .num 7]) = some (.list [.str ['7'], .float ['7']])
+    ∧ litOf s 64 (.list (.named "Any")) (.arr [.str "7", .num 7]) = some (.list [.int 7, .float ['7']]) := ⟨rfl, rfl⟩
 
 /-- non-vacuity: a nested default `{a: -7, e: [B, A]}` (enum `B` has internal value 1) satisfies every hypothesis;
     so do an enum default given by internal value and a nested list -/
-example : litOf witnessSchema 64 (.named "I") (.obj [("a", .num (-7)), ("e", .arr [.num 1, .str "A"])])
+example : litOfStrict witnessSchema 64 (.named "I") (.obj [("a", .num (-7)), ("e", .arr [.num 1, .str "A"])])
       = some (.obj [(['a'], .int (-7)), (['e'], .list [.enum ['B'], .enum ['A']])])
     ∧ wfLit (.obj [(['a'], .int (-7)), (['e'], .list [.enum ['B'], .enum ['A']])]) = true
     ∧ formatDefaultValue witnessSchema true (.obj [("a", .num (-7)), ("e", .arr [.num 1, .str "A"])]) (.named "I")
       = some "{a: -7, e: [B, A]}".toList := ⟨rfl, by decide, rfl⟩
 
-example : litOf witnessSchema 64 (.list (.list (.named "Int"))) (.arr [.arr [.num 1, .num 20], .arr [], .null])
+example : litOfStrict witnessSchema 64 (.list (.list (.named "Int"))) (.arr [.arr [.num 1, .num 20], .arr [], .null])
       = some (.list [.list [.int 1, .int 20], .list [], .null])
     ∧ formatDefaultValue witnessSchema true (.arr [.arr [.num 1, .num 20], .arr [], .null]) (.list (.list (.named "Int")))
       = some "[[1, 20], [], null]".toList := ⟨rfl, rfl⟩
